@@ -48,7 +48,7 @@ def run(tier):
     states, gen, cases, nv = model()
     cases.sort(key=lambda c: (c["k"], c["l"], c["cause"]))
     scs = []
-    reps = 1 if tier == "quick" else 6
+    reps = 1 if tier == "quick" else 12
     for rep in range(reps):
         for i, c in enumerate(cases):
             scs.append(dict(c, id="c%d-%d" % (i, rep), also=""))
